@@ -18,7 +18,13 @@ import (
 	"c4emc/explore"
 )
 
-const VerifDir = "/verif"
+// VerifDir is where evidence, replays and known findings live (the directory of run.sh).
+var VerifDir = func() string {
+	if d := os.Getenv("VERIF_DIR"); d != "" {
+		return d
+	}
+	return "/verif"
+}()
 
 // Evidence mirrors EVIDENCE.schema.json.
 type Evidence struct {
